@@ -227,6 +227,16 @@ Fixpoint find_sub (fuel : nat) (needle hay : list Z) (i : Z) : option Z :=
 (* bytes.index(needle) *)
 Definition bytes_index (needle hay : list Z) : option Z := find_sub (S (List.length hay)) needle hay 0.
 
+(* the terminator search of a string field: the first position on a character boundary (a multiple of the code-unit width of
+   the character set) at which the termination character's bytes occur *)
+Fixpoint find_aligned (fuel : nat) (w : nat) (needle hay : list Z) (i : Z) : option Z :=
+  match fuel with
+  | O => None
+  | S f => if (List.length needle <=? List.length hay)%nat && forallb (fun ab => fst ab =? snd ab) (combine needle hay)
+           then Some i
+           else match hay with [] => None | _ :: _ => find_aligned f w needle (skipn w hay) (i + Z.of_nat w) end
+  end.
+
 Fixpoint units (w : nat) (big : bool) (fuel : nat) (l : list Z) : res (list Z) :=
   match fuel with
   | O => Ok []
@@ -268,6 +278,9 @@ Fixpoint utf8 (fuel : nat) (l : list Z) : res (list Z) :=
       else Err EValue
     end
   end.
+Definition char_width (cs : charset) : nat := match cs with Utf16 _ => 2%nat | Utf32 _ => 4%nat | _ => 1%nat end.
+Definition term_index (cs : charset) (needle hay : list Z) : option Z :=
+  find_aligned (S (List.length hay)) (char_width cs) needle hay 0.
 Definition valid_scalar (cp : Z) : bool := (0 <=? cp) && (cp <? 1114112) && negb ((55296 <=? cp) && (cp <? 57344)).
 (* bytes.decode(charset) to code points; surrogate pairs and the undefined cp1252 bytes are outside the model (ENotImpl) *)
 Definition decode_text (cs : charset) (bs : list Z) : res (list Z) :=
@@ -302,7 +315,7 @@ Definition parse_string (e : string_enc) (env : env) (c : cursor) : res (pval * 
     | Some tag =>
         if tag =? 0 then (* falsy leading size: treated as absent *)
           match se_term e with
-          | Some term => match bytes_index term buf with
+          | Some term => match term_index (se_charset e) term buf with
                          | Some i => '(bs, _) <- read_as_bytes {| cdata := buf; cpos := 0 |} (i * 8) ;; Ok bs
                          | None => Err EValue end
           | None => Ok buf
@@ -312,7 +325,7 @@ Definition parse_string (e : string_enc) (env : env) (c : cursor) : res (pval * 
         if len_bits mod 8 =? 0 then '(bs, _) <- read_as_bytes cb len_bits ;; Ok bs else Err EValue
     | None =>
         match se_term e with
-        | Some term => match bytes_index term buf with
+        | Some term => match term_index (se_charset e) term buf with
                        | Some i => '(bs, _) <- read_as_bytes {| cdata := buf; cpos := 0 |} (i * 8) ;; Ok bs
                        | None => Err EValue end
         | None => Ok buf
